@@ -102,6 +102,7 @@ KINDS = {
     "b8_part": "uint8 {n}a:2; uint8 {n}b:3;",
     "b16_part": "uint16 {n}a:4; uint16 {n}b:5;",
     "b32_sw8": "uint32 {n}a:4; uint8 {n}b:4;",
+    "b8_sw32": "uint8 {n}a:4; uint32 {n}b:8;",
     "b16_3": "uint16 {n}a:5; uint16 {n}b:5; uint16 {n}c:6;",
     "bi8": "int8 {n}a:4; int8 {n}b:4;",
     "be8": "E8 {n}a:3; E8 {n}b:5;",
